@@ -179,3 +179,16 @@ def compare_modes(c, prop, hazard, what="five-stage with hazard detection"):
 
 def oracle(c):
     return compare_modes(c, PROP, True)
+
+
+# The counter lines of the performance-metrics TEXT are part of the model (`SimViews.metricsLines` / `toyMetricsLines`): what the
+# user reads is compared at the end of every case.
+_cases_nometrics = cases
+
+
+def cases(rng, tier):
+    for c in _cases_nometrics(rng, tier):
+        if any(l == "sim.snap" for l in c.lines):
+            # in front of the final snapshot only: the oracles pair every step with the snapshot behind it and read the last output
+            c.lines = c.lines[:-1] + ["sim.metrics", c.lines[-1]] if c.lines[-1] == "sim.snap" and c.suite != "straight" else c.lines
+        yield c
